@@ -69,6 +69,83 @@ Proof.
   rewrite Forall_forall in Hlt. pose proof (Hlt kr Hkr) as L. rewrite E, bltb_irrefl in L. discriminate L.
 Qed.
 
+(** ** proofs that survive harmless rewrites of the Go source
+
+    The theorems about the translated functions are re-checked against a fresh
+    translation on every change of the Go source.  They never mention the shape of
+    a test, a generated name or the order of independent statements: tests are
+    case-split on their ATOMIC comparisons ([go_cases], from GoSetFacts.v) and the
+    impossible combinations are left to [lia]; loops are replaced by folds whose
+    step is given semantically ([grange_fold_to_idx]); the expected value is stated
+    explicitly and reached by conversion, not by [fold]ing the goal. *)
+
+(** a range loop whose body always falls through is a left fold; the body may use the
+    index of the element (a loop written [for i := range l { x := l[i]; ... }]): position
+    [k] is visited with index [i + k] *)
+Lemma grange_fold_idx {A St R} (body : Z -> A -> St -> gres (lstep St R)) (f : St -> A -> St) l :
+  forall i s,
+  (forall k x s, nth_error l k = Some x -> body (i + Z.of_nat k) x s = GOk (LNext (f s x))) ->
+  grange body i l s = GOk (inl (fold_left f l s)).
+Proof.
+  induction l as [|x0 r IH]; intros i s Hb; [reflexivity|].
+  cbn [grange fold_left].
+  pose proof (Hb O x0 s eq_refl) as H0. replace (i + Z.of_nat 0) with i in H0 by lia.
+  rewrite H0. cbn [gbind]. apply IH. intros k x s' Hk.
+  replace (i + 1 + Z.of_nat k) with (i + Z.of_nat (S k)) by lia. apply Hb. exact Hk.
+Qed.
+
+(** ... whose value is [r] (stated by the caller, reached by conversion) *)
+Lemma grange_fold_to_idx {A St R} (body : Z -> A -> St -> gres (lstep St R)) (f : St -> A -> St) l i s r :
+  (forall k x s, nth_error l k = Some x -> body (i + Z.of_nat k) x s = GOk (LNext (f s x))) ->
+  fold_left f l s = r ->
+  grange body i l s = GOk (inl r).
+Proof. intros Hb Hr. subst r. apply grange_fold_idx. exact Hb. Qed.
+
+(** l[i] at a position known to hold x *)
+Lemma gidx_nth {A} (l : list A) k x : nth_error l k = Some x -> gidx l (0 + Z.of_nat k) = GOk x.
+Proof.
+  intros H. unfold gidx. assert (Hlt : (k < List.length l)%nat) by (apply nth_error_Some; congruence).
+  replace ((0 <=? 0 + Z.of_nat k) && (0 + Z.of_nat k <? zlen l)) with true
+    by (symmetry; apply andb_true_intro; split; [apply Z.leb_le|apply Z.ltb_lt]; unfold zlen; lia).
+  replace (Z.to_nat (0 + Z.of_nat k)) with k by lia. rewrite H. reflexivity.
+Qed.
+
+Lemma zlen_cons_s {A} (x : A) l : zlen (x :: l) = zlen l + 1.
+Proof. unfold zlen. cbn [List.length]. lia. Qed.
+
+Lemma zlen_ge0_s {A} (l : list A) : 0 <= zlen l.
+Proof. unfold zlen. lia. Qed.
+
+(** lengths are non-negative: known to [lia] for every list variable *)
+Ltac pose_zlen :=
+  repeat match goal with
+         | l : list ?A |- _ =>
+             lazymatch goal with
+             | _ : 0 <= zlen l |- _ => fail
+             | _ => pose proof (zlen_ge0_s l)
+             end
+         end.
+
+(** a list variable whose length is 0 (however the source tests it) is [[]] *)
+Ltac lists_nil :=
+  pose_zlen;
+  repeat match goal with
+         | l : list _ |- _ =>
+             let H := fresh in
+             let x0 := fresh "x" in
+             let l0 := fresh "l" in
+             assert (H : zlen l = 0) by lia;
+             destruct l as [|x0 l0];
+             [clear H | exfalso; pose proof (zlen_ge0_s l0); rewrite zlen_cons_s in H; lia]
+         end.
+
+(** make(T, 0) and make(T, 0, n) *)
+Lemma gmake_0 {A} (z : A) : gmake z 0 = GOk [].
+Proof. reflexivity. Qed.
+
+Lemma bsort_idem l : bsort (bsort l) = bsort l.
+Proof. apply bsort_perm_eq. apply bsort_perm. Qed.
+
 (* ====================================================================== *)
 (** * T1: SortedEntryKeys                                                  *)
 (* ====================================================================== *)
@@ -81,11 +158,15 @@ Theorem go_SortedEntryKeys_eq mord (m : list (bytes * go_Entry)) :
   go_SortedEntryKeys mord m = GOk (bsort (map fst m), m).
 Proof.
   intros Hm. unfold go_SortedEntryKeys. cbv zeta.
-  rewrite (grange_fold _ (fun acc (kv : bytes * go_Entry) => acc ++ [fst kv])).
-  2:{ intros i [k v] s. reflexivity. }
-  cbn [gbind]. rewrite fold_app_fst. cbn [app].
-  rewrite (bsort_perm_eq _ (map fst m)); [reflexivity|].
-  apply Permutation_map. apply Hm.
+  (* closed tests (an early return on an empty map, ...) *)
+  rewrite ?gmake_0; cbn [gbind].
+  pose_zlen; go_cases; lists_nil;
+  (* the loop collects the keys in the order of the range *)
+  rewrite ?(grange_fold _ (fun acc (kv : bytes * go_Entry) => acc ++ [fst kv]))
+    by (intros i [k v] s; reflexivity);
+  cbn [gbind]; rewrite ?fold_app_fst; cbn [app map]; rewrite ?bsort_idem;
+  first [ reflexivity
+        | rewrite (bsort_perm_eq _ (map fst m)) by (apply Permutation_map; apply Hm); reflexivity ].
 Qed.
 Print Assumptions go_SortedEntryKeys_eq.
 
@@ -295,25 +376,50 @@ Proof.
   destruct x; destruct (MetaData_Flag (Entry_Meta e) =? 0); reflexivity.
 Qed.
 
+(** [live] in terms of the Go fields *)
+Lemma live_fields now e :
+  entry_ok e ->
+  live now e = negb (MetaData_Flag (Entry_Meta e) =? 0) &&
+               negb (is_expired (Z.to_N now) (Z.to_N (MetaData_TTL (Entry_Meta e)))
+                                (Z.to_N (MetaData_timestamp (Entry_Meta e)))).
+Proof.
+  intros (Hf & _). unfold live, kr_dead, kr_of, DataDeleteFlag. cbn [kr_flag kr_ttl kr_ts].
+  replace (Z.to_N (MetaData_Flag (Entry_Meta e)) =? 0)%N with (MetaData_Flag (Entry_Meta e) =? 0) by lia.
+  rewrite negb_orb. reflexivity.
+Qed.
+
 (** ** the function *)
 Theorem go_processEntriesScanOnDisk_eq now mord es :
   mord_ok mord -> 0 <= now < 2 ^ 64 -> Forall entry_ok es ->
   go_processEntriesScanOnDisk now mord es = GOk (scan_result now es).
 Proof.
   intros Hm Hn Hes. unfold go_processEntriesScanOnDisk. cbv zeta.
+  rewrite ?gmake_0; cbn [gbind].
+  (* closed tests before the loops (a fast path for an empty input, ...) *)
+  pose_zlen; go_cases; lists_nil;
+  lazymatch goal with
+  | |- context [grange _ _ _ _] => idtac
+  | _ => reflexivity
+  end.
   (* the de-duplication loop *)
-  rewrite (grange_fold _ dedup_step).
-  2:{ intros i e m. unfold dedup_step. destruct (has_key m (Entry_Key e)); reflexivity. }
-  cbn [gbind]. fold (dedup es).
+  rewrite (grange_fold_to_idx _ dedup_step _ _ _ (dedup es)).
+  2:{ intros i e m Hi. rewrite ?(gidx_nth _ _ _ Hi). cbn [gbind].
+      unfold dedup_step. go_cases; reflexivity. }
+  2:{ reflexivity. }
+  cbn [gbind]. rewrite ?gmake_0; cbn [gbind].
   (* the sorted keys *)
-  rewrite go_SortedEntryKeys_eq by exact Hm. cbn [gbind]. fold (scan_keys es). fold entry0.
+  rewrite go_SortedEntryKeys_eq by exact Hm. cbn [gbind]. rewrite ?gmake_0; cbn [gbind].
   (* the selection loop *)
-  rewrite (grange_fold _ (fun acc k => if live now (first_entry es k) then acc ++ [first_entry es k] else acc)).
-  2:{ intros i k acc. rewrite lookup0_dedup.
-      pose proof (live_test now (first_entry es k) Hn (first_entry_ok es k Hes)) as L.
-      destruct (go_IsExpired now _ _) as [r| |]; cbn [gbind] in L |- *; try discriminate L.
-      injection L as L. rewrite L. destruct (live now (first_entry es k)); reflexivity. }
-  cbn [gbind]. rewrite fold_app_sel. cbn [app]. rewrite scan_result_alt. reflexivity.
+  rewrite (grange_fold_to_idx _ (fun acc k => if live now (first_entry es k) then acc ++ [first_entry es k] else acc)
+             _ _ _ (scan_result now es)).
+  2:{ intros i k acc Hi. rewrite ?(gidx_nth _ _ _ Hi). cbn [gbind].
+      fold entry0. rewrite ?lookup0_dedup.
+      pose proof (first_entry_ok es k Hes) as Hok.
+      rewrite (live_fields now _ Hok). destruct Hok as (Hf & Ht & Hs).
+      rewrite ?go_IsExpired_eq by assumption.
+      cbn [gbind]. go_cases; reflexivity. }
+  2:{ rewrite fold_app_sel. cbn [app]. rewrite scan_result_alt. reflexivity. }
+  reflexivity.
 Qed.
 Print Assumptions go_processEntriesScanOnDisk_eq.
 
@@ -427,18 +533,6 @@ Proof.
     apply in_map_iff. exists e. split; [exact Ek|]. apply scan_result_In. rewrite Ek. split; assumption.
 Qed.
 
-(** [live] in terms of the Go fields *)
-Lemma live_fields now e :
-  entry_ok e ->
-  live now e = negb (MetaData_Flag (Entry_Meta e) =? 0) &&
-               negb (is_expired (Z.to_N now) (Z.to_N (MetaData_TTL (Entry_Meta e)))
-                                (Z.to_N (MetaData_timestamp (Entry_Meta e)))).
-Proof.
-  intros (Hf & _). unfold live, kr_dead, kr_of, DataDeleteFlag. cbn [kr_flag kr_ttl kr_ts].
-  replace (Z.to_N (MetaData_Flag (Entry_Meta e)) =? 0)%N with (MetaData_Flag (Entry_Meta e) =? 0) by lia.
-  rewrite negb_orb. reflexivity.
-Qed.
-
 (** T3 about the Go function itself *)
 Theorem go_processEntriesScanOnDisk_keys now mord es :
   mord_ok mord -> 0 <= now < 2 ^ 64 -> Forall entry_ok es ->
@@ -518,6 +612,29 @@ Definition bm_step (nonnil : bool) (key : bytes) (t : go_BucketMeta) : go_Bucket
       (BucketMeta_crc t)
   else mk_go_BucketMeta ks ks key key 0.
 
+(** case analysis on atomic tests (as [go_cases]) that also computes the fields of records *)
+Ltac bm_simpl :=
+  cbn [andb orb negb gbind fst snd CompOpp
+       BucketMeta_start BucketMeta_end BucketMeta_startSize BucketMeta_endSize BucketMeta_crc].
+Ltac bm_case :=
+  match goal with
+  | |- context [if ?c then _ else _] => bool_atom c; cbv beta iota; bm_simpl
+  end.
+(** the helper [compare] (bptree.go), when it is called and not bytes.Compare itself: its
+    translation is unfolded whatever its name *)
+Ltac unfold_compare :=
+  repeat match goal with
+         | |- context [gbind (?f ?a ?b) _] =>
+             is_const f;
+             lazymatch type of f with bytes -> bytes -> gres Z => idtac end;
+             progress unfold f
+         end.
+(** every comparison of [key] with [st] or [en] in one orientation, and its known verdict *)
+Ltac bm_norm st en key Hcs Hce :=
+  cbv beta iota; bm_simpl; unfold_compare; cbv zeta; bm_simpl;
+  rewrite ?(bcompare_antisym st key), ?(bcompare_antisym en key), ?Hcs, ?Hce;
+  cbv beta iota; bm_simpl.
+
 (** T4.  The oracle is consulted at one site [n], on the start key: for every
     answer the call computes [bm_step] of the verdict; the transaction is unchanged *)
 Theorem go_buildTempBucketMetaIdx_eq orc tx bucket key temp :
@@ -525,17 +642,17 @@ Theorem go_buildTempBucketMetaIdx_eq orc tx bucket key temp :
     go_Tx_buildTempBucketMetaIdx orc tx bucket key temp =
       GOk (tx, bm_step (slice_nonnil (orc n) (BucketMeta_start temp)) key temp).
 Proof.
-  unfold go_Tx_buildTempBucketMetaIdx, go_compare. cbv zeta.
+  unfold go_Tx_buildTempBucketMetaIdx. unfold_compare. cbv zeta.
   match goal with |- context [slice_nonnil (orc ?n) _] => exists n end.
-  unfold bm_step, bmin, bmax. cbv zeta.
-  destruct (slice_nonnil _ (BucketMeta_start temp)); cbn [negb gbind]; [|reflexivity].
-  rewrite bcmp_z_pos.
+  unfold bm_step, bmin, bmax, bltb, bcmp_z. cbv zeta.
   destruct temp as [ss es st en c].
-  cbn [BucketMeta_start BucketMeta_end BucketMeta_startSize BucketMeta_endSize BucketMeta_crc].
-  destruct (bltb key st); cbn [gbind];
-    unfold set_BucketMeta_start, set_BucketMeta_startSize, set_BucketMeta_end, set_BucketMeta_endSize;
-    cbn [BucketMeta_start BucketMeta_end BucketMeta_startSize BucketMeta_endSize BucketMeta_crc];
-    rewrite bcmp_z_neg; destruct (bltb en key); reflexivity.
+  unfold set_BucketMeta_start, set_BucketMeta_startSize, set_BucketMeta_end, set_BucketMeta_endSize,
+    set_BucketMeta_crc.
+  bm_simpl.
+  (* every comparison of two keys in one orientation, then the three-way cases *)
+  destruct (bcompare st key) eqn:Hcs; destruct (bcompare en key) eqn:Hce;
+    repeat (bm_norm st en key Hcs Hce; bm_case; try (exfalso; lia));
+    bm_norm st en key Hcs Hce; reflexivity.
 Qed.
 Print Assumptions go_buildTempBucketMetaIdx_eq.
 
